@@ -108,6 +108,12 @@ class Run:
             elif op == "downsize":
                 s.downsize()
                 outcome = ("ok", None)
+            elif op == "pickle":
+                # the solver goes on as its own pickled-and-restored copy (what angr does when it stores a state)
+                import pickle
+
+                lv.solver = pickle.loads(pickle.dumps(s, -1))
+                outcome = ("ok", None)
             elif op == "branch":
                 nb = s.branch()
                 self.live.append(Live(nb, lv.cons, label=f"s{len(self.live)}"))
@@ -171,7 +177,7 @@ class Run:
         op = st["op"]
         extra_d = st.get("extra", [])
         res = self.res
-        if op in ("add", "simplify", "downsize", "branch", "split", "combine", "merge"):
+        if op in ("add", "simplify", "downsize", "branch", "split", "combine", "merge", "pickle"):
             if outcome[0] != "ok":
                 if self.mode == "none":
                     res.count(f"{op}_raised_not_judged_here")
